@@ -273,6 +273,11 @@ def cases(draw, flatten=False):
         "style": style, "src": src, "cell": cell, "W": W, "H": H,
         "bg": draw(st.one_of(st.none(), gen.rgb)),
         "alpha": draw(alpha_strategy()),
+        # an earlier render of the same objects: at another frame / with another transparency setting, run to
+        # completion (abort None) or interrupted at a generated point
+        "prior": draw(st.one_of(st.none(), st.fixed_dictionaries({
+            "frame": st.integers(0, 7), "alpha": st.sampled_from(["same", "same", None, 0.5, "#", "#0a141e"]),
+            "abort": st.one_of(st.none(), st.floats(0.0, 0.999, allow_nan=False))}))),
     }
     if flatten:
         sel = draw(st.integers(0, 5))
@@ -398,6 +403,10 @@ def check_graphics(case, rec):
         raise vio(f"constructing the image raised {type(e).__name__}: {e}", clause="construct")
     try:
         _check(case, rec, src)
+    except Violation as v:
+        if getattr(src, "note", ""):
+            raise Violation(v.msg + src.note, v.signature) from None
+        raise
     finally:
         src.close()
 
@@ -419,6 +428,45 @@ def _check(case, rec, src):
             image.read_from_file = case["rff"]
     image.set_size(W, H)
     native_anim = style == "iterm2" and method == "anim" and src.animated
+    prior = case.get("prior")
+    after = ""
+    if prior and W * H <= 36 and not native_anim:
+        from ..faults import interrupt_at
+
+        p_alpha = alpha if prior["alpha"] == "same" else prior["alpha"]
+        files = ("image/kitty.py", "image/iterm2.py", "image/common.py")
+        if src.animated:
+            pf = prior["frame"] % src.image.n_frames
+            image.seek(pf)
+        try:
+            if prior["abort"] is None:
+                image._renderer(image._render_image, p_alpha, **args)
+                after = f" [after a render with alpha={p_alpha!r}" + (f" at frame {pf}]" if src.animated else "]")
+                rec.label("after_prior_render")
+            else:
+                twin = Source(case, type(image))
+                try:
+                    if src.animated:
+                        twin.image.seek(pf)
+                    twin.image.set_size(W, H)
+                    lf = interrupt_at(files, prior["abort"], lambda: image._renderer(image._render_image, p_alpha, **args),
+                                      dry_fn=lambda: twin.image._renderer(twin.image._render_image, p_alpha, **args), max_lines=20000)
+                finally:
+                    twin.close()
+                if lf is not None and lf.fired:
+                    after = f" [after a render with alpha={p_alpha!r}" + (f" at frame {pf}" if src.animated else "") + f" was interrupted at {lf.where}]"
+                    rec.label("abort_then_reuse")
+        except Exception as e:
+            if gen.is_pil_apng_defect(e):  # Pillow's own APNG decoder fails on some backward seeks: excluded, counted
+                rec.label("excluded:pil_apng_seek_defect")
+                rec.count("excluded_pil_apng_seek_defect", 1)
+                return
+            raise vio(f"render raised {type(e).__name__}: {e}", clause="render_exception", style=style)
+        if src.animated:
+            image.seek(src.frame)
+        if tuple(image.size) != (W, H):
+            raise vio(f"a render changed the image size {(W, H)} -> {image.size}{after}", clause="abort_then_reuse", style=style)
+    src.note = after
     try:
         out = image._renderer(image._render_image, alpha, **args)
     except RenderError as e:
@@ -427,6 +475,10 @@ def _check(case, rec, src):
             return
         raise vio(f"render raised RenderError: {e}", clause="render_exception", style=style)
     except Exception as e:
+        if after and gen.is_pil_apng_defect(e):
+            rec.label("excluded:pil_apng_seek_defect")
+            rec.count("excluded_pil_apng_seek_defect", 1)
+            return
         raise vio(f"render raised {type(e).__name__}: {e}", clause="render_exception", style=style)
 
     # the public path: the same settings written as a format specifier must give the very same render
